@@ -88,6 +88,8 @@ def ledger_cases(ctx):
     # container-typed overloads with the operand inside the destination's own root (validation: real traces only)
     for ops in _value.alias_cases():
         lines.append(_value.line_of(ops))
+    for ops in _value.full_merge_cases():
+        lines.append(_value.line_of(ops, cmd="valseq" if any(o.startswith("cop ") for o in ops) else "valled"))
     # operation-only traces for the comparison with the trace model
     depth = 3 if ctx.thorough else 2
     for n in range(1, depth + 1):
